@@ -21,7 +21,8 @@ RULE = ("fresh KNNSubgraph on every weighted complete graph (zero weights in the
         "explicit-state search (prefix replay, depth <= 4) over operation sequences "
         "create/pdf/eliminate/destroy from the fresh state with the reference tracking whether "
         "arcs exist; the subgraph state left by the KNN-supervised and unsupervised fits is "
-        "checked against the same reference for best_k. Non-trivial = the graph has tied "
+        "checked against the same reference for best_k; direction-dependent metrics; one 300-sample "
+        "instance per k. Non-trivial = the graph has tied "
         "distances, or k > n-1, or the sequence re-creates arcs after destroying them")
 ASSUMPTIONS = [
     "create_arcs is only issued when no arcs exist (fresh or after destroy_arcs) and "
